@@ -190,6 +190,23 @@ Fixpoint diamond_from (i : N) (n : nat) (fan : nat) : list (list N) :=
   match n with O => [[]] | S k => repeat (i + 1) fan :: diamond_from (i + 1) k fan end.
 Definition diamond (n fan : nat) : list (list N) := diamond_from 0 n fan.
 
+(* the same family as an abstract graph for the induction: group B-trees at addresses 1 .. n+1, the group at b <= n has two
+   entries with cached addresses (cache type 1) naming the group at b+1, the group at n+1 is empty: n+1 B-trees, 2n entries *)
+Definition dia_entry (t : N) : bentry := BE (SE 8 0 true 1 t 8).
+Definition dia_graph (n : N) : graph :=
+  G (fun _ _ => OFail)
+    (fun b _ => if b =? 0 then None
+                else if b <=? n then Some [dia_entry (b + 1); dia_entry (b + 1)]
+                else if b =? n + 1 then Some [] else None).
+Fixpoint dia_built (k : nat) : N := match k with O => 0 | S k => 2 + 2 * dia_built k end.
+Fixpoint dia_steps (k : nat) : N := match k with O => 1 | S k => 1 + 2 * dia_steps k end.
+
+(* n B-trees at addresses 1 .. n that all hold the same n entries, entry j = cached addresses of B-tree j (in a file: n
+   one-child B-tree nodes that point at ONE symbol table node): n*n + 1 objects without a single counted load *)
+Definition comb_graph (n : nat) : graph :=
+  G (fun _ _ => OFail)
+    (fun b _ => if (1 <=? b) && (b <=? N.of_nat n) then Some (map (fun j => dia_entry (N.of_nat j)) (seq 1 n)) else None).
+
 (* observable for the tie: class, objects built, loadCount, number of marked B-trees, steps *)
 Definition lres_val (r : lres) : val :=
   match r with
